@@ -310,11 +310,12 @@ func (f *countingRBF) NewBufferFromReaderAt(d digest.Digest, r buffer.ReadAtClos
 // ---- program.Group owned by the harness ----
 
 type simGroup struct {
-	s      *rt.Sched
-	proc   int
-	ctx    context.Context
-	cancel context.CancelFunc
-	active int
+	s        *rt.Sched
+	proc     int
+	ctx      context.Context
+	cancel   context.CancelFunc
+	active   int
+	onReturn func()
 }
 
 func newSimGroup(s *rt.Sched, proc int) *simGroup {
@@ -327,6 +328,9 @@ func (g *simGroup) Go(routine program.Routine) {
 	g.s.GoProc("routine", g.proc, true, func() {
 		defer func() { g.active-- }()
 		routine(g.ctx, g, g)
+		if g.onReturn != nil {
+			g.onReturn()
+		}
 	})
 }
 
@@ -373,6 +377,8 @@ type storeEnv struct {
 	shutdownSeq            int                   // seq at which shutdown was requested (0 = not)
 	shutdownT              time.Duration
 	routineG               int                   // goroutine id of the ProcessBlockPut routine
+	wconfig                bool                  // assembled by NewBlobAccessFromConfiguration
+	metricsBase            metricSnapshot
 	routineReturned        bool
 }
 
